@@ -1392,6 +1392,7 @@ def run(ctx):
         ctx.point("stripPlural", "aux", [w[:-1] if w.endswith("s") else w for w in words], got, {"words": words}, exact=True, sig="C17/stripPlural")
     own_sanity(ctx)
     format_spec_cases(ctx)
+    appended_log_cases(ctx)
     for case in gen_cases(ctx, ctx.tier == "thorough"):
         run_case(ctx, case)
 
@@ -1439,6 +1440,100 @@ def format_spec_cases(ctx, forms=True):
             shutil.rmtree(tmp, ignore_errors=True)
 
 
+def appended_log_cases(ctx):
+    """a log file that ALREADY EXISTS when the evaluator is built (audit2-4 C17-3: re-running a script; a second evaluator given the path of an
+    earlier one). The library opens the file in append mode and writes a (second) header. The property's "the CSV log agrees with the values
+    computed at those epochs in order" can then only speak about what THIS evaluator appended: the rows after its header (if the implementation
+    writes no second header: the last rows of the file) are exactly one row per evaluation, in order. Whether the earlier content is kept and
+    whether a second header is written is counted, not compared. Oracle on the implementation only (C17_records_metric_run /
+    C17_records_observable_run are stated for an ARBITRARY list of old rows: log = old rows ++ one row per evaluation)."""
+    from qucumber.callbacks import MetricEvaluator, ObservableEvaluator
+    from qucumber.observables import SigmaX, SigmaZ
+    variants = ["metric/prefilled-by-hand", "metric/second-evaluator-same-path", "observable/second-evaluator-same-path", "metric/prefilled-same-header"]
+    for vi, variant in enumerate(variants):
+        case = {"appended_log": variant, "aseed": 40 + vi}
+        r = random.Random(case["aseed"] * 7919)     # fixed cases (not drawn from ctx.rng): the replay re-runs all of them
+        p1, p2 = r.choice([1, 2, 3]), r.choice([1, 2, 3])
+        e1, e2 = r.choice([3, 4, 5]), r.choice([4, 6, 7])
+        tmp = tempfile.mkdtemp(prefix="qv_c17a_")
+        try:
+            path = os.path.join(tmp, "shared log.csv")
+            st, data, bases = make_state("pos", 5 + vi)
+            rec = Recorder()
+            err = None
+            captured = {}
+
+            def mk(idx):
+                return lambda nn_state, **kw: metric_value(idx, rec.cur, 0, 0)
+
+            def wrap_stats(ev):
+                orig = ev.system.statistics
+
+                def wrapped(nn_state, *a, **k):
+                    res = orig(nn_state, *a, **k)
+                    captured[rec.cur] = res
+                    return res
+                ev.system.statistics = wrapped
+
+            def fit(cbs, start, epochs):
+                with contextlib.redirect_stdout(io.StringIO()), contextlib.redirect_stderr(io.StringIO()):
+                    st.fit(data, epochs=epochs, starting_epoch=start, pos_batch_size=4, k=1, lr=0.05, callbacks=[rec] + cbs)
+            names2 = ["kl", "a b"] if variant != "metric/prefilled-same-header" else ["nll"]
+            try:
+                if variant == "metric/prefilled-by-hand":
+                    before = "epoch,old metric\r\n1,0.5\r\n2,0.25\r\n"
+                    with open(path, "w", newline="") as f:
+                        f.write(before)
+                elif variant == "metric/prefilled-same-header":
+                    before = "epoch,nll\r\n1,7\r\n"
+                    with open(path, "w", newline="") as f:
+                        f.write(before)
+                elif variant == "metric/second-evaluator-same-path":
+                    fit([MetricEvaluator(p1, {"nll": mk(0)}, log=path)], 1, e1)
+                else:
+                    ev1 = ObservableEvaluator(p1, [SigmaZ()], log=path, num_samples=6, burn_in=2, steps=1)
+                    fit([ev1], 1, e1)
+                n_before = len(read_csv(path))
+                start2 = 1 if variant.startswith("metric/prefilled") else e1 + 1
+                n0 = len(rec.events)
+                if variant.startswith("metric"):
+                    ev2 = MetricEvaluator(p2, {nm: mk(i + 1) for i, nm in enumerate(names2)}, log=path)
+                    fit([ev2], start2, start2 + e2 - 1)
+                    hdr = ["epoch"] + names2
+                    exp = [[str(ev["e"])] + [str(metric_value(i + 1, ev["w"], 0, 0)) for i in range(len(names2))]
+                           for ev in rec.events[n0:] if ev["k"] == "ee" and ev["e"] % p2 == 0]
+                else:
+                    ev2 = ObservableEvaluator(p2, [SigmaX(), SigmaZ()], log=path, num_samples=6, burn_in=2, steps=1)
+                    wrap_stats(ev2)
+                    fit([ev2], start2, start2 + e2 - 1)
+                    onames = ["SigmaX", "SigmaZ"]
+                    hdr = ["epoch"] + [f"{o}_{s_}" for o in onames for s_ in ("mean", "variance", "std_error")]
+                    exp = [[str(ev["e"])] + [str(captured[ev["w"]][o][s_]) for o in onames for s_ in ("mean", "variance", "std_error")]
+                           for ev in rec.events[n0:] if ev["k"] == "ee" and ev["e"] % p2 == 0 and ev["w"] in captured]
+                rows = read_csv(path)
+            except Exception as e:  # noqa: BLE001
+                err = f"{type(e).__name__}: {str(e)[:120]}"
+            ctx.case(case, nontrivial=True)
+            ctx.count(f"appended-log.{variant}")
+            if err is not None:
+                ctx.oracle("an evaluator given the path of a log file that already exists evaluates and logs as with a fresh file", False, case,
+                           detail={"raised": err}, sig=f"C17/appended-log/{variant}", theorem="C17_records_metric_run, C17_records_observable_run")
+                continue
+            hpos = [i for i, row in enumerate(rows) if row == hdr and i >= (n_before if variant != "metric/prefilled-same-header" else 1)]
+            if hpos:
+                suffix = rows[hpos[-1] + 1:]
+            else:
+                suffix = rows[len(rows) - len(exp):] if exp else []
+            ctx.count("info.appended-log.second-header=" + ("written" if hpos else "absent"))
+            ctx.count("info.appended-log.earlier-content-kept=" + ("yes" if len(rows) >= n_before + len(exp) else "no"))
+            ctx.oracle("log file that already existed: the rows appended by this evaluator (after its header) == one row per evaluation, values computed "
+                       "at those epochs, in order", suffix == exp and len(exp) > 0, case,
+                       detail={"appended": suffix[:4], "expected": exp[:4], "rows_in_file": len(rows), "rows_before": n_before, "period": p2},
+                       sig=f"C17/appended-log/{variant}", theorem="C17_records_metric_run, C17_records_observable_run (old rows arbitrary)")
+        finally:
+            shutil.rmtree(tmp, ignore_errors=True)
+
+
 def own_sanity(ctx):
     """bookkeeping only: how many of the names the generator draws collisions from (`OWN`) are in fact resolved by normal lookup on the
     live objects. No comparison: which attributes / helper methods the classes have is not constrained by the property."""
@@ -1452,6 +1547,7 @@ def search(ctx):
     drv, ctx.driver = ctx.driver, None
     try:
         format_spec_cases(ctx)
+        appended_log_cases(ctx)
         for case in gen_cases(ctx, True):
             run_case(ctx, case)
     finally:
@@ -1461,6 +1557,9 @@ def search(ctx):
 def replay(ctx, case):
     if "format_spec" in case:
         format_spec_cases(ctx, forms="fseed" in case or "iseed" in case)
+        return
+    if "appended_log" in case:
+        appended_log_cases(ctx)
         return
     case = {k: v for k, v in case.items() if k not in ("at_segment", "callback", "file", "detail", "raised", "model_error")}
     run_case(ctx, case)
